@@ -37,7 +37,17 @@ for P in $props; do
   n=$(echo $P | tr A-Z a-z)
   f=cmd/runimpl/$n.go
   [ -f $f ] || { echo "no $f" >&2; rc=1; continue; }
-  needs=$(grep -h '^// verif:needs' $f | sed 's#// verif:needs##')
+  # transitive closure of the `// verif:needs` lines (c14 needs c10, which needs c17)
+  needs=""; todo=$(grep -h '^// verif:needs' $f | sed 's#// verif:needs##')
+  while [ -n "$todo" ]; do
+    nxt=""
+    for d in $todo; do
+      case " $needs $n " in *" $d "*) continue;; esac
+      needs="$needs $d"
+      [ -f cmd/runimpl/$d.go ] && nxt="$nxt $(grep -h '^// verif:needs' cmd/runimpl/$d.go | sed 's#// verif:needs##')"
+    done
+    todo=$nxt
+  done
   extra=""
   for d in $needs; do extra="$extra cmd/runimpl/$d.go"; done
   # optional accessor families: `// verif:tags t1,t2` in cNN.go; when the tagged build fails (an accessor no longer fits
